@@ -24,8 +24,9 @@ theorem src_MarshalBinary_expected : src_MarshalBinary = "{ return proto.Marshal
 theorem src_UnmarshalBinary_expected : src_UnmarshalBinary = "{ var pb proto2.Data if err := proto.Unmarshal(buf, &pb); err != nil { return err } data.Unmarshal(&pb) return nil }" := by rfl
 
 /-- `CreateShardGroup` / `createShards` read nothing of the picked measurement but its shard
-keys (the premise of `maporder_harmless`). -/
-theorem createShardGroup_mstiReads_expected : createShardGroup_mstiReads = ["ShardKeys"] := by rfl
+keys (the premise of `maporder_harmless`) — and its name, for the text of the refusal when it
+has none (`fix:` 01de664). -/
+theorem createShardGroup_mstiReads_expected : createShardGroup_mstiReads = ["Name", "ShardKeys"] := by rfl
 theorem createShards_mstiReads_expected : createShards_mstiReads = ["ShardKeys"] := by rfl
 
 /-- the persistent fields the table reports as not carried are exactly the recorded gaps -/
